@@ -134,6 +134,7 @@ var c07Probes = []struct {
 	want      []gen.CSSTok
 }{
 	{"badstring-newline", "\"a\nb", []gen.CSSTok{{"BadString", "\"a\n"}, {"Ident", "b"}}},
+	{"badstring-crlf", "\"s\r\nb", []gen.CSSTok{{"BadString", "\"s\r"}, {"Whitespace", "\n"}, {"Ident", "b"}}},
 	{"badurl-to-paren", "url(a b)c", []gen.CSSTok{{"BadURL", "url(a b)"}, {"Ident", "c"}}},
 	{"url-case", "URL( 'x' )", []gen.CSSTok{{"URL", "URL( 'x' )"}}},
 	{"delim-backslash-newline", "\\\na", []gen.CSSTok{{"Delim", "\\"}, {"Whitespace", "\n"}, {"Ident", "a"}}},
